@@ -11,3 +11,19 @@ chk("C07", "exploration", "E1-refmodel",
     "Every (pattern, name) pair over a 13-symbol alphabet (incl. '*', '/', '.', newline, regexp metacharacters, a 2-byte rune) up to length 3x3 (quick) / 4x4 on 9 symbols and 3x4 on 13 (thorough) is run through the real matcher and compared with an independent matcher; beyond the bound, random Unicode pairs and random rule sets. Exhaustive within the bound, sampled outside it.",
     "Trusted: the 25-line DP matcher in harness/internal/refmodel as the meaning of 'glob'; inputs restricted to valid UTF-8 as the property states.",
     "DESIGN.md section 4, C07")
+
+chk("C01", "exploration", "E1-refmodel",
+    "reference-model runtime monitor (map model + independent glob matcher) over generated (state, rule set) cases; every operation x every name at the DB API and through the real HTTP handlers, oracle after every call",
+    "For hundreds (quick) / thousands (thorough) of generated database states and rule sets, all 9 operations are issued on all names of a hostile pool (existing, absent, empty, reserved, newline, literal '*') with several version arguments, at the db.DB API and through the handlers registered by server.New with the rules delivered by a scripted WhoIs. After every call the monitor compares outcome class and payload with the model, the full state (dump as superuser) with the model state, the refusal text/status+body with the same call on an empty twin database, and scans refusals and metadata for marker values. Sampled, not exhaustive.",
+    "Trusted: harness/internal/refmodel (model + DP glob matcher). Callers and rule sets are sampled; for a request that is both unauthorised and ill-formed either the denied class or another error class is accepted.",
+    "DESIGN.md section 4, C01")
+chk("C02", "exploration", "E1-refmodel",
+    "reference-model runtime monitor: generated operation histories applied in lock-step to the real db.DB and a sequential map model, result + full state compared after every step",
+    "Thousands of seeded histories of 30-60 operations (all 9 operations; names incl. empty and reserved; values incl. empty and repeats; version arguments biased to 0/active/latest/latest+1/deleted) are executed on the real database; after every step the result and the complete observable state are compared with the model, and three invariants (put result immediately retrievable, issued versions never go back, failed calls change nothing) are evaluated on the real state alone. Named hard shapes (delete newest then put again / put empty, activate backwards, delete-and-recreate, duplicate of older value) must each have occurred or the run is broken.",
+    "Trusted: the ~150-line map model written from the property statement. Sampled histories, not exhaustive.",
+    "DESIGN.md section 4, C02")
+chk("C03", "exploration", "E1-refmodel",
+    "reference-model runtime monitor with a real stop/restart (second db.Open) after every single operation, next-version probe on a copy, file hash/inode/mtime before vs after Open, plus fixture files written by the pinned commit",
+    "After every operation of generated histories the file is reopened with the same key and the reopened state must equal the model state reached by the acknowledged operations, the next put on every name (on a copy) must receive latest+1, and the file must be bit-for-bit, inode and mtime unchanged by Open. Six fixture databases written by the pinned commit (two key kinds; empty, small with deleted/non-1-active/recreated secrets, 200 secrets) must open with identical contents and counters.",
+    "Trusted: the map model; 'earlier build' is the pinned commit only; restart = second Open in the same process while the first handle is idle.",
+    "DESIGN.md section 4, C03")
